@@ -2,6 +2,7 @@
 //! one check body run over `Rat`, `f64` and `Cmplx`.
 
 use crate::rat::Rat;
+use crate::refla::{Field, CR};
 use crate::stream::Src;
 use core::ops::Neg;
 use ohsl::traits::{Number, Signed};
@@ -49,6 +50,12 @@ pub fn f64_plain(src: &mut Src) -> f64 {
 pub trait Elem: Copy + Clone + Number + Signed + PartialOrd + Debug + Neg<Output = Self> + Send + Sync + 'static {
     const NAME: &'static str;
     const EXACT: bool;
+    /// exact field the (dyadic) values embed into: Rat for rat/f64, Gaussian rationals for cmplx
+    type X: Field + Debug;
+    fn to_exact(&self) -> Option<Self::X>;
+    fn x_to_c(x: &Self::X) -> (f64, f64);
+    /// bitwise identity (floats) / equality (exact)
+    fn same(&self, o: &Self) -> bool;
     fn from_int(i: i64) -> Self;
     /// small exactly representable value (integers / Gaussian integers / small rationals); may be zero
     fn small(src: &mut Src) -> Self;
@@ -78,6 +85,16 @@ pub trait Elem: Copy + Clone + Number + Signed + PartialOrd + Debug + Neg<Output
 impl Elem for Rat {
     const NAME: &'static str = "rat";
     const EXACT: bool = true;
+    type X = Rat;
+    fn to_exact(&self) -> Option<Rat> {
+        Some(*self)
+    }
+    fn x_to_c(x: &Rat) -> (f64, f64) {
+        (x.to_f64(), 0.0)
+    }
+    fn same(&self, o: &Self) -> bool {
+        self == o
+    }
     fn from_int(i: i64) -> Self {
         Rat::int(i)
     }
@@ -103,6 +120,16 @@ impl Elem for Rat {
 impl Elem for f64 {
     const NAME: &'static str = "f64";
     const EXACT: bool = false;
+    type X = Rat;
+    fn to_exact(&self) -> Option<Rat> {
+        Rat::from_f64(*self)
+    }
+    fn x_to_c(x: &Rat) -> (f64, f64) {
+        (x.to_f64(), 0.0)
+    }
+    fn same(&self, o: &Self) -> bool {
+        self.to_bits() == o.to_bits()
+    }
     fn from_int(i: i64) -> Self {
         i as f64
     }
@@ -136,6 +163,16 @@ impl Elem for f64 {
 impl Elem for Cmplx {
     const NAME: &'static str = "cmplx";
     const EXACT: bool = false;
+    type X = CR;
+    fn to_exact(&self) -> Option<CR> {
+        Some(CR::new(Rat::from_f64(self.real)?, Rat::from_f64(self.imag)?))
+    }
+    fn x_to_c(x: &CR) -> (f64, f64) {
+        x.to_c()
+    }
+    fn same(&self, o: &Self) -> bool {
+        self.real.to_bits() == o.real.to_bits() && self.imag.to_bits() == o.imag.to_bits()
+    }
     fn from_int(i: i64) -> Self {
         Cmplx::new(i as f64, 0.0)
     }
